@@ -188,7 +188,10 @@ class HeteroPool:
 
     def __init__(self, hashseeds, instrument=False, extra_env=None):
         self.hashseeds = list(hashseeds)
-        self.workers = _start_many([(instrument, h, extra_env) for h in self.hashseeds])
+        # a real interpreter whose hash seed is 3 modulo 4 also runs with asserts stripped (python -O): the interpreter's
+        # optimisation level is environment, not input
+        self.workers = _start_many([(instrument, h, dict(extra_env or {}, **({"PYTHONOPTIMIZE": "1"} if h % 4 == 3 else {})))
+                                    for h in self.hashseeds])
 
     def map_all(self, fn, args_for, n_jobs, timeout=60.0):
         """args_for(worker_index, job_index) -> args.  Returns results[worker_index][job_index]."""
